@@ -381,13 +381,42 @@ pub fn close_position_reply(
         latest_premium_fraction: _,
     } = calc_remain_margin_with_funding_payment(deps.as_ref(), position.clone(), margin_delta)?;
 
-    let withdraw_amount = Integer::new_positive(margin).checked_add(swap.unrealized_pnl)?;
+    let mut withdraw_amount = Integer::new_positive(margin).checked_add(swap.unrealized_pnl)?;
 
     let mut msgs: Vec<SubMsg> = vec![];
 
     // to prevent attacker to leverage the bad debt to withdraw extra token from insurance fund
     if !bad_debt.is_zero() {
         return Err(StdError::generic_err("Cannot close position - bad debt"));
+    }
+
+    // create array for fee amounts
+    let mut fees_amount: [Uint128; 2] = [Uint128::zero(), Uint128::zero()];
+    let mut fee_msgs: Vec<SubMsg> = vec![];
+
+    if !position.notional.is_zero() {
+        let mut fees = transfer_fees(
+            deps.as_ref(),
+            swap.trader.clone(),
+            swap.vamm.clone(),
+            position.notional,
+        )
+        .unwrap();
+
+        fees_amount[0] = fees.spread_fee;
+        fees_amount[1] = fees.toll_fee;
+
+        fee_msgs.append(&mut fees.messages);
+
+        // native tokens cannot be pulled from the trader's wallet, the fees are sent from the
+        // vault and are therefore taken out of the amount paid to the trader
+        if let AssetInfo::NativeToken { .. } = config.eligible_collateral {
+            withdraw_amount = Integer::new_positive(
+                withdraw_amount
+                    .value
+                    .checked_sub(fees.spread_fee.checked_add(fees.toll_fee)?)?,
+            );
+        }
     }
 
     if !withdraw_amount.is_zero() {
@@ -405,23 +434,7 @@ pub fn close_position_reply(
         );
     }
 
-    // create array for fee amounts
-    let mut fees_amount: [Uint128; 2] = [Uint128::zero(), Uint128::zero()];
-
-    if !position.notional.is_zero() {
-        let mut fees = transfer_fees(
-            deps.as_ref(),
-            swap.trader.clone(),
-            swap.vamm.clone(),
-            position.notional,
-        )
-        .unwrap();
-
-        fees_amount[0] = fees.spread_fee;
-        fees_amount[1] = fees.toll_fee;
-
-        msgs.append(&mut fees.messages);
-    }
+    msgs.append(&mut fee_msgs);
 
     let value =
         margin_delta + Integer::new_positive(bad_debt) + Integer::new_positive(position.notional);
